@@ -21,9 +21,20 @@ MAX_PRECEDENCE = 100
 VALID = re.compile(r"^[a-zA-Z_]\w*$")
 
 
+_reserved_parser = None
+
+
 def is_keyword(identifier):
+    global _reserved_parser
+    if _reserved_parser is None:
+        # BUILDING A PARSER USES THE ENGINE'S GLOBAL WHITESPACE STACK; DO IT ONCE, UNDER THE PARSE LOCK
+        from mo_sql_parsing import parse_locker
+
+        with parse_locker:
+            if _reserved_parser is None:
+                _reserved_parser = RESERVED.finalize()
     try:
-        RESERVED.parse_string(identifier)
+        _reserved_parser.parse_string(identifier)
         return True
     except Exception:
         return False
